@@ -58,15 +58,21 @@ fn compile_main(root: &Path) -> Res {
 }
 
 /// winners the statement allows: per location order (importer-relative, load path 1, load path 2) and per candidate order,
-/// under both readings of the candidate order and both readings of how locations and candidates interleave
+/// under both readings of the candidate order; the importer's directory always comes first, and among the load
+/// paths both readings of how locations and candidates interleave are accepted
 fn acceptable(kind: u8, present: &[u16; 3]) -> Vec<(usize, &'static str)> {
     let mut out: Vec<(usize, &'static str)> = vec![];
     let orders: Vec<&[&str]> = if kind == 2 { vec![IMPORT_CANDS, IMPORT_CANDS_B] } else { vec![USE_CANDS] };
     let names = cands(kind);
     let has = |loc: usize, name: &str| names.iter().position(|n| *n == name).is_some_and(|i| present[loc] & (1 << i) != 0);
     for order in orders {
-        // location-major
-        'l: for loc in 0..3 {
+        // "relative to the importing file first": any candidate beside the importer wins over every load path
+        if let Some(n) = order.iter().find(|n| has(0, n)) {
+            out.push((0, *n));
+            continue;
+        }
+        // "then unchanged in each load path in order": location-major ...
+        'l: for loc in 1..3 {
             for n in order.iter() {
                 if has(loc, n) {
                     out.push((loc, n));
@@ -74,9 +80,9 @@ fn acceptable(kind: u8, present: &[u16; 3]) -> Vec<(usize, &'static str)> {
                 }
             }
         }
-        // candidate-major
+        // ... or candidate-major over the load paths (the statement does not say which loop is the outer one)
         'c: for n in order.iter() {
-            for loc in 0..3 {
+            for loc in 1..3 {
                 if has(loc, n) {
                     out.push((loc, n));
                     break 'c;
@@ -235,7 +241,20 @@ impl C04 {
                                 if ok.iter().any(|(loc, n)| format!("{loc}/{n}") == f) {
                                     Verdict::pass(nontrivial).class(format!("kind-{kind}")).class_if(*sub, "importer-in-subdir").class_if(present[0] == 0, "via-load-path")
                                 } else {
-                                    Verdict::fail(format!("{}: loaded {f}, the statement allows {ok:?}", describe()))
+                                    let msg = format!("{}: loaded {f}, the statement allows {ok:?}", describe());
+                                    // open finding: for an importer in the loader's base directory that directory is just the
+                                    // first entry of the search path, and the search is candidate-major over base and load paths
+                                    let candidate_major_all = {
+                                        let orders: Vec<&[&str]> = if *kind == 2 { vec![IMPORT_CANDS, IMPORT_CANDS_B] } else { vec![USE_CANDS] };
+                                        orders.iter().any(|order| {
+                                            order.iter().find_map(|n| (0..3).find(|l| names.iter().position(|x| x == n).is_some_and(|i| present[*l] & (1 << i) != 0)).map(|l| format!("{l}/{n}"))).as_deref() == Some(f.as_str())
+                                        })
+                                    };
+                                    if !*sub && present[0] != 0 && candidate_major_all {
+                                        Verdict::known("C04-base-dir-searched-candidate-major", msg)
+                                    } else {
+                                        Verdict::fail(msg)
+                                    }
                                 }
                             }
                         }
